@@ -159,6 +159,11 @@ var (
 // ConstructCredential creates a credential using the IssueSignatureMessage from
 // the issuer and the content of the attributes.
 func (b *CredentialBuilder) ConstructCredential(msg *IssueSignatureMessage, attributes []*big.Int) (*Credential, error) {
+	// A message that arrived over the wire may lack any of its parts
+	if msg == nil || msg.Proof == nil || msg.Proof.C == nil || msg.Proof.EResponse == nil ||
+		msg.Signature == nil || msg.Signature.A == nil || msg.Signature.E == nil || msg.Signature.V == nil {
+		return nil, errors.New("issuer's message is incomplete")
+	}
 	if !msg.Proof.Verify(b.pk, msg.Signature, b.context, b.nonce2) {
 		return nil, ErrIncorrectProofOfSignatureCorrectness
 	}
